@@ -339,6 +339,13 @@ Inductive c20_op :=
   | C20_Float (r : nat)                        (* float(v): bound for size 1 only *)
   | C20_SetSlice (r : nat) (start stop step : option Z) (vals : list Q)   (* v[a:b:c] = vals (through the NumPy fallback) *)
   | C20_NeL (r : nat) (l : list Q) | C20_ISubL (r : nat) (l : list Q) | C20_AssignL (r : nat) (l : list Q)
+  (* cross-cutting audit: a NumPy view as RECEIVER / left operand (NumPy semantics over the exported buffer), slice assignment
+     from another object (possibly overlapping storage), dropping the owner's Python reference *)
+  | C20_SetSliceFrom (r : nat) (start stop step : option Z) (s : nat)    (* x[a:b:c] = y *)
+  | C20_ArrIAdd (r s : nat) | C20_ArrISub (r s : nat)                    (* a += y, a -= y  (a a NumPy view) *)
+  | C20_ArrIMulS (r : nat) (q : Q) | C20_ArrIAddS (r : nat) (q : Q)      (* a *= q, a += q *)
+  | C20_ArrAdd (r s : nat)                                               (* a + y: a new array *)
+  | C20_Drop (r : nat)                                                   (* del v; gc.collect(): views keep the storage alive *)
   (* `npv` scripts: NumPy arrays accessed from C++ through a NumPyVector wrapped around register r *)
   | C20_NewArr (vals : list Q)                 (* np.array([...]) *)
   | C20_NLen (r : nat) | C20_NGet (r : nat) (i : nat) | C20_NSet (r : nat) (i : nat) (x : Q)
@@ -405,6 +412,48 @@ Definition c20_setslice (st : c20_state) (o : c20_obj) (start stop step : option
       else (st, C20_ObsExc C20_ValueError)
   | C20_Exc e => (st, C20_ObsExc e)
   end.
+
+(* NumPy broadcasting of a one-dimensional operand against an array of n entries: equal length, or one entry repeated *)
+Definition c20_np_operand (n : nat) (vals : list Q) : c20_res (list Q) :=
+  if Nat.eqb (List.length vals) n then C20_Ok vals
+  else if Nat.eqb (List.length vals) 1 then C20_Ok (repeat (nth O vals 0%Q) n)
+  else C20_Exc C20_ValueError.
+(* on a NumPy array register with a second register as operand (read before anything is written) *)
+Definition c20_on_arr2 (st : c20_state) (r s : nat) (f : c20_obj -> list Q -> c20_state * c20_obs) : c20_state * c20_obs :=
+  match nth_error (c20_regs st) r, nth_error (c20_regs st) s with
+  | Some o, Some p =>
+      match c20_k o with
+      | C20_Arr => match c20_np_operand (c20_size o) (c20_vals st p) with
+                   | C20_Ok y => f o y
+                   | C20_Exc e => (st, C20_ObsExc e)
+                   end
+      | C20_Vec => (st, C20_ObsUnmodelled)
+      end
+  | _, _ => (st, C20_ObsUnmodelled)
+  end.
+Definition c20_on_arr (st : c20_state) (r : nat) (f : c20_obj -> c20_state * c20_obs) : c20_state * c20_obs :=
+  match nth_error (c20_regs st) r with
+  | Some o => match c20_k o with C20_Arr => f o | C20_Vec => (st, C20_ObsUnmodelled) end
+  | None => (st, C20_ObsUnmodelled)
+  end.
+
+(* a + y out of place: NumPy broadcasts BOTH ways (a one-entry receiver is repeated to the operand's length) *)
+Definition c20_arradd (st : c20_state) (r s : nat) : c20_state * c20_obs :=
+      match nth_error (c20_regs st) r, nth_error (c20_regs st) s with
+      | Some o, Some p =>
+          match c20_k o with
+          | C20_Arr =>
+              match c20_np_operand (c20_size o) (c20_vals st p) with
+              | C20_Ok y => c20_push_new st C20_Arr (c20_vadd (c20_vals st o) y)
+              | C20_Exc e =>
+                  if Nat.eqb (c20_size o) 1
+                  then c20_push_new st C20_Arr (c20_vadd (repeat (nth O (c20_vals st o) 0%Q) (c20_size p)) (c20_vals st p))
+                  else (st, C20_ObsExc e)
+              end
+          | C20_Vec => (st, C20_ObsUnmodelled)
+          end
+      | _, _ => (st, C20_ObsUnmodelled)
+      end.
 
 Definition c20_step (cfg : c20_cfg) (st : c20_state) (op : c20_op) : c20_state * c20_obs :=
   match op with
@@ -512,6 +561,17 @@ Definition c20_step (cfg : c20_cfg) (st : c20_state) (op : c20_op) : c20_state *
   | C20_NeL r l => c20_on_vec st r (fun o => (st, C20_ObsBool (negb (c20_veq (c20_vals st o) (c20_construct (c20_size o) l)))))
   | C20_ISubL r l => c20_on_vec st r (fun o => c20_inplace st o (c20_vsub (c20_vals st o) (c20_construct (c20_size o) l)))
   | C20_AssignL r l => c20_on_vec st r (fun o => c20_inplace st o (c20_construct (c20_size o) l))
+  | C20_SetSliceFrom r a b c s => c20_on_any st r (fun o =>
+      match nth_error (c20_regs st) s with
+      | Some p => c20_setslice st o a b c (c20_vals st p)
+      | None => (st, C20_ObsUnmodelled)
+      end)
+  | C20_ArrIAdd r s => c20_on_arr2 st r s (fun o y => c20_inplace st o (c20_vadd (c20_vals st o) y))
+  | C20_ArrISub r s => c20_on_arr2 st r s (fun o y => c20_inplace st o (c20_vsub (c20_vals st o) y))
+  | C20_ArrIMulS r q => c20_on_arr st r (fun o => c20_inplace st o (c20_vscale q (c20_vals st o)))
+  | C20_ArrIAddS r q => c20_on_arr st r (fun o => c20_inplace st o (c20_vadds q (c20_vals st o)))
+  | C20_ArrAdd r s => c20_arradd st r s
+  | C20_Drop r => (st, C20_ObsNone)
   | C20_NewArr vals => c20_push_new st C20_Arr vals
   | C20_NLen r => c20_on_npv cfg st r (fun cs => (st, C20_ObsInt (Z.of_nat (List.length cs))))
   | C20_NGet r i => c20_on_npv cfg st r (fun cs =>
